@@ -239,6 +239,13 @@ func (lex *Lexer) emit(typ token.Type, text string) []*token.Token {
 }
 
 func (lex *Lexer) emitText(typ token.Type) []*token.Token {
+	if lex.scanner.Overrun() {
+		// The token fills the scanner's window and input remains.  Emitting
+		// what was accepted would leave its tail to be lexed as the next
+		// token: a symbol one character longer than the window read as two
+		// symbols, a long run of digits as two numbers.
+		return lex.errorf("token exceeds maximum token size")
+	}
 	tok := lex.scanner.EmitToken(typ)
 	tok.PrecedingNewlines = lex.precedingNewlines
 	tok.PrecedingSpaces = lex.precedingSpaces
